@@ -167,7 +167,20 @@ def common_obligations(ctx, repo, pid):
         extra = []
     mods = mods + [m for m in extra if m in repo.modules and m not in mods]
     if mods:
-        check_caches(ctx, repo, pid, mods)
+        # a memo in a module that the anchored code imports from is as harmful as one in the anchored module itself: the CACHE rule runs
+        # over the import closure (within the package) of the anchored modules
+        closure = list(mods)
+        frontier = list(mods)
+        while frontier:
+            mn = frontier.pop()
+            mi = repo.modules.get(mn)
+            for dotted in (mi.imports.values() if mi is not None else []):
+                for cand in (dotted, dotted.rsplit(".", 1)[0]):
+                    if cand in repo.modules and cand.startswith("molgri.") and cand not in closure and \
+                            not cand.startswith(("molgri.plotting", "molgri.scripts", "molgri.assertions")):
+                        closure.append(cand)
+                        frontier.append(cand)
+        check_caches(ctx, repo, pid, closure)
         # ALIAS rule: objects kept in memo containers / handed out by reference must not be modified in place by any caller
         from .rules.alias import check_aliases, DEFAULT_SCOPE_PREFIXES
         scope = sorted(n for n in repo.modules if any(n.startswith(p) for p in DEFAULT_SCOPE_PREFIXES))
